@@ -167,6 +167,13 @@ func checkACS(r *Report, sc *Scope) {
 	a := NewAnalysis(p)
 	B := a.B
 	selectors := map[*ssa.Function]bool{}
+	type acsStore struct {
+		fn    *ssa.Function
+		blk   *ssa.BasicBlock
+		which string
+		pos   string
+	}
+	var classified []acsStore
 	for _, fn := range p.modFns {
 		if !p.InLibrary(fn) {
 			continue
@@ -282,12 +289,45 @@ func checkACS(r *Report, sc *Scope) {
 						which = "IdP-initiated: POST binding"
 					}
 					if which != "" {
+						classified = append(classified, acsStore{fn, b, which, p.InstrPos(in)})
 						r.add(&Obligation{Rule: "C05.acs-guards", Construct: gc + " [" + which + "]", Pos: p.InstrPos(in), Verdict: "discharged", NonTrivial: true, Detail: which})
 					} else {
 						r.Bad("C05.acs-guards", gc+" ["+p.InstrPos(in)+"]", p.InstrPos(in), "the store is reachable under a condition that matches none of the documented selection rules: "+a.canon(cnd))
 					}
 				}
 			}
+		}
+	}
+	// priority: the "any browser-binding endpoint" choice is made only after the scan for a default endpoint is complete
+	// (no loop contains both choices, and the default scan comes first)
+	for _, d := range classified {
+		if !strings.Contains(d.which, "default endpoint") {
+			continue
+		}
+		for _, n := range classified {
+			if n.fn != d.fn || n.which != "no index/URL requested, browser binding" {
+				continue
+			}
+			shared := false
+			for _, h := range loopHeadersOf(d.blk) {
+				for _, h2 := range loopHeadersOf(n.blk) {
+					if h == h2 {
+						shared = true
+					}
+				}
+			}
+			first := false
+			if hs := loopHeadersOf(d.blk); len(hs) > 0 {
+				// the outermost loop of the default scan dominates the fallback choice and does not contain it
+				outer := hs[0]
+				for _, h := range hs {
+					if h.Dominates(outer) {
+						outer = h
+					}
+				}
+				first = outer.Dominates(n.blk) && !underLoop(outer, n.blk)
+			}
+			r.Check(!shared && first, "C05.acs-guards", fmt.Sprintf("%s: the default endpoint takes precedence over the first browser-binding endpoint", p.FnName(d.fn)), n.pos, "the fallback choice follows the completed scan for a default", fmt.Sprintf("the fallback endpoint choice at %s is made in the same pass as, or before, the default-endpoint choice at %s: a registered isDefault endpoint later in the metadata is never considered", n.pos, d.pos))
 		}
 	}
 	// the selection function succeeds only through a store
